@@ -3455,39 +3455,55 @@ let op_removetree s path =
            O))))))))))))))))))))))))))))))))))))))))))))))))))))))))))))))))
            s r)
 
+(** val year_ok : now_rec option -> bool **)
+
+let year_ok = function
+| Some n0 ->
+  let (p, _) = n0 in
+  let (p0, _) = p in
+  let (p1, _) = p0 in
+  let (p2, _) = p1 in
+  let (y, _) = p2 in
+  (&&) (Z.leb (Zpos (XO (XO (XI (XI (XI (XI (XO (XI (XI (XI XH))))))))))) y)
+    (Z.leb y (Zpos (XI (XI (XO (XI (XI (XI (XO (XO (XO (XO (XO XH)))))))))))))
+| None -> true
+
 (** val op_setinfo :
     st -> namerec list -> now_rec option -> now_rec option -> now_rec option
     -> st res **)
 
 let op_setinfo s path ct mt at_ =
   bind (get_dir_entry s path) (fun r ->
-    match r with
-    | ERoot -> Err ENOENT
-    | EAt (ploc, e) ->
-      let e1 =
-        match ct with
-        | Some t0 ->
-          set_times e (time_of t0) (date_of t0) e.d_accdate e.d_wrttime
-            e.d_wrtdate
-        | None -> e
-      in
-      let e2 =
-        match mt with
-        | Some t0 ->
-          set_times e1 e1.d_crttime e1.d_crtdate e1.d_accdate (time_of t0)
-            (date_of t0)
-        | None -> e1
-      in
-      let e3 =
-        match at_ with
-        | Some t0 ->
-          set_times e2 e2.d_crttime e2.d_crtdate (date_of t0) e2.d_wrttime
-            e2.d_wrtdate
-        | None -> e2
-      in
-      bind (read_dir s ploc) (fun es ->
-        write_dir s ploc
-          (map (fun x -> if same_entry e x then set_lfn e3 x.d_lfn else x) es)))
+    if negb ((&&) ((&&) (year_ok ct) (year_ok mt)) (year_ok at_))
+    then Err EINVAL
+    else (match r with
+          | ERoot -> Err ENOENT
+          | EAt (ploc, e) ->
+            let e1 =
+              match ct with
+              | Some t0 ->
+                set_times e (time_of t0) (date_of t0) e.d_accdate e.d_wrttime
+                  e.d_wrtdate
+              | None -> e
+            in
+            let e2 =
+              match mt with
+              | Some t0 ->
+                set_times e1 e1.d_crttime e1.d_crtdate e1.d_accdate
+                  (time_of t0) (date_of t0)
+              | None -> e1
+            in
+            let e3 =
+              match at_ with
+              | Some t0 ->
+                set_times e2 e2.d_crttime e2.d_crtdate (date_of t0)
+                  e2.d_wrttime e2.d_wrtdate
+              | None -> e2
+            in
+            bind (read_dir s ploc) (fun es ->
+              write_dir s ploc
+                (map (fun x ->
+                  if same_entry e x then set_lfn e3 x.d_lfn else x) es))))
 
 (** val find_in_dir : st -> handle -> dirent res **)
 
